@@ -7,6 +7,25 @@ from .c10 import LINKS, Scene, canon_model_ws, canon_ws, model_req
 from .util import bump_mtime, md5hex, safe_call
 
 
+
+class _SceneFailed(Exception):
+    pass
+
+
+def _scene(ctx, sc, oid, types):
+    """the forced checkout that sets the scene; when it fails (a C10 matter, not C05's) the scenario is skipped and counted"""
+    if "err" in sc.checkout(oid, types, force=True):
+        ctx.count("scene: the forced checkout that sets the scene failed (scenario skipped)")
+        raise _SceneFailed()
+
+
+def _guarded(fn, ctx, rng):
+    try:
+        fn(ctx, rng)
+    except _SceneFailed:
+        pass
+
+
 def check_noforce(ctx, rng):
     # one history in five is a *restore* history: a hash-state database is in use, the workspace holds real files, and the
     # user's edits are mostly other bytes of the same size moved into place with the old timestamps (cp -p / rsync -t / an
@@ -26,7 +45,7 @@ def check_noforce(ctx, rng):
             existing, link = "copy", "hardlink"
         if restore and existing == "symlink":
             existing = rng.choice(["copy", "hardlink"])
-        sc.checkout(t1, [existing], force=True)
+        _scene(ctx, sc, t1, [existing])
         target = dict(prior)
         for k in list(prior):
             r = rng.random()
@@ -113,7 +132,7 @@ def check_remove_output(ctx, rng):
         prior = gen.rand_tree(rng, max_files=6, allow_odd=False)
         t1 = sc.put_tree(prior)
         link = rng.choice(["copy", "hardlink"])
-        sc.checkout(t1, [link], force=True)
+        _scene(ctx, sc, t1, [link])
         edits = sc.user_edits(kinds=("replace_uncached", "add")) if rng.random() < 0.3 else []
         gone = []
         for k, c in prior.items():
@@ -200,7 +219,7 @@ def check_ignored_files(ctx, rng):
                 del other[k]
         t2 = sc.put_tree(other)
         link = rng.choice(["copy", "hardlink", "symlink"])
-        sc.checkout(t1, [link], force=True)
+        _scene(ctx, sc, t1, [link])
         ign = _SuffixIgnore((".log", "~"))
         dirs = sorted({os.path.dirname(os.path.join(sc.ws, *k)) for k in prior})
         hidden = {}
@@ -352,7 +371,7 @@ def check_save_during_pass(ctx, rng):
         t1 = sc.put_tree(prior)
         existing = rng.choice(LINKS)
         link = existing if rng.random() < 0.7 else rng.choice(LINKS)
-        sc.checkout(t1, [existing], force=True)
+        _scene(ctx, sc, t1, [existing])
         target = dict(prior)
         for k in list(prior):
             r = rng.random()
@@ -489,7 +508,7 @@ def check_selective_prompt(ctx, rng):
         t1 = sc.put_tree(prior)
         existing = rng.choice(LINKS)
         link = existing if rng.random() < 0.7 else rng.choice(["copy", "hardlink"])
-        sc.checkout(t1, [existing], force=True)
+        _scene(ctx, sc, t1, [existing])
         mode = rng.choice(["other_version", "other_version", "same_version", "remove_output"])
         target = dict(prior)
         if mode == "other_version":
@@ -617,37 +636,33 @@ def run(ctx):
     ctx.assumptions = ["the hash-state cache is coherent (C13): a stale cached hash of a user file would make in_cache lie "
                        "(explored here only for saves that land during a completed hashing pass of build())"]
     for _ in range(ctx.n(130, 1500)):
-        check_noforce(ctx, ctx.rng)
+        _guarded(check_noforce, ctx, ctx.rng)
     for _ in range(ctx.n(120, 1200)):
-        check_links(ctx, ctx.rng)
+        _guarded(check_links, ctx, ctx.rng)
     for _ in range(ctx.n(40, 500)):
-        check_remove_output(ctx, ctx.rng)
+        _guarded(check_remove_output, ctx, ctx.rng)
     for _ in range(ctx.n(25, 250)):
-        check_legacy_twin(ctx, ctx.rng)
+        _guarded(check_legacy_twin, ctx, ctx.rng)
     for _ in range(ctx.n(40, 400)):
-        check_save_during_pass(ctx, ctx.rng)
+        _guarded(check_save_during_pass, ctx, ctx.rng)
     for _ in range(ctx.n(40, 400)):
-        check_selective_prompt(ctx, ctx.rng)
+        _guarded(check_selective_prompt, ctx, ctx.rng)
     for _ in range(ctx.n(30, 300)):
-        check_ignored_files(ctx, ctx.rng)
-
-
+        _guarded(check_ignored_files, ctx, ctx.rng)
 def search(ctx):
     for _ in range(1200):
-        check_noforce(ctx, ctx.rng)
+        _guarded(check_noforce, ctx, ctx.rng)
     for _ in range(800):
-        check_links(ctx, ctx.rng)
+        _guarded(check_links, ctx, ctx.rng)
     for _ in range(500):
-        check_remove_output(ctx, ctx.rng)
+        _guarded(check_remove_output, ctx, ctx.rng)
     for _ in range(250):
-        check_legacy_twin(ctx, ctx.rng)
+        _guarded(check_legacy_twin, ctx, ctx.rng)
     for _ in range(400):
-        check_save_during_pass(ctx, ctx.rng)
+        _guarded(check_save_during_pass, ctx, ctx.rng)
     for _ in range(400):
-        check_selective_prompt(ctx, ctx.rng)
+        _guarded(check_selective_prompt, ctx, ctx.rng)
     for _ in range(300):
-        check_ignored_files(ctx, ctx.rng)
-
-
+        _guarded(check_ignored_files, ctx, ctx.rng)
 def replay(ctx, payload):
     run(ctx)
